@@ -437,6 +437,7 @@ type FuncContract struct {
 	Requires  []*Clause
 	RequiresLocked []*Clause
 	Ensures   []*Clause
+	UnknownMods []ModItem // state that calls to unknown code may change (havocked after each such call)
 	Lemmas    []*Clause // facts about the result that are assumed at call sites and not checked in the body (listed as assumptions)
 	Invs      map[int][]*Clause
 	Modifies  []ModItem
@@ -503,7 +504,7 @@ func newContractSet() *ContractSet {
 var clauseKeywords = map[string]bool{
 	"func": true, "on_lock": true, "extern": true, "requires": true, "requires_locked": true, "ensures": true, "modifies": true, "nopanic": true,
 	"loop": true, "specfunc": true, "ghost": true, "ghostsum": true, "ghost_set": true, "lockinv": true, "axiom": true, "trusted": true,
-	"pure": true, "inline": true, "held": true, "acquires": true, "assert": true, "package": true, "invariant": true, "lemma": true,
+	"pure": true, "inline": true, "held": true, "acquires": true, "assert": true, "package": true, "invariant": true, "lemma": true, "unknown_calls_modify": true,
 }
 
 // splitLabel splits "label: expr" (label is a bare identifier followed by ':' but not '::').
@@ -680,6 +681,23 @@ func (cs *ContractSet) parseContractText(file, pkgPath string, lines []string, l
 				}
 				cur.Modifies = append(cur.Modifies, mi)
 				cur.ModText = append(cur.ModText, part)
+			}
+		case "unknown_calls_modify":
+			// unknown_calls_modify x.f, map y: state that calls to code without a contract (function
+			// values, closures, uncontracted callees) may change; havocked after each such call
+			if cur == nil {
+				return fmt.Errorf("%s:%d: unknown_calls_modify outside func", file, it.line)
+			}
+			for _, part := range splitTop(rest, ',') {
+				part = strings.TrimSpace(part)
+				if part == "" {
+					continue
+				}
+				mi, err := parseModItem(part)
+				if err != nil {
+					return fmt.Errorf("%s:%d: %v", file, it.line, err)
+				}
+				cur.UnknownMods = append(cur.UnknownMods, mi)
 			}
 		case "on_lock":
 			// on_lock havoc cell f.data, mem deref(f.data): the state other threads may change until the
